@@ -10,7 +10,7 @@ OWNS = ("C20",)
 RULE = (
     "bases of 2-5 shells (l 0..3, 1-4 primitives with exponents 0.05..500 so that min != max matters, generalized, "
     "cartesian/spherical per shell) with one shell pair placed at d_cut(1-1e-6) or d_cut(1+1e-6) of a chosen tolerance "
-    "and the others at 0-30 bohr; tolerances from 0.5 down to 1e-16 and None; overlap_integral(basis, tol_screen=t) is "
+    "and the others at 0-30 bohr; tolerances from 0.5 down to 1e-16 (nine fixed values, two log-uniform random ones per case, a second pair bracketed at a random one) and None; overlap_integral(basis, tol_screen=t) is "
     "observed for every t and the checker decides per shell-pair block: expected status from the model's own cutoff "
     "sqrt(-(a+b)/(ab) ln t) with the SMALLEST exponent of each shell; kept block == unscreened block bitwise, dropped "
     "block exactly 0, None == call without the argument bitwise, dropped sets monotone in t, every dropped s-s element "
@@ -64,7 +64,14 @@ def gen_cases(tier, seed):
             s["c"] = [float(v) for v in c0 + u * float(rng.choice([0.0, 0.5, 2.0, 5.0, 10.0, 30.0]) * rng.uniform(0.5, 1.0))]
         ntot = sum(bases.nfunc(s) for s in shells)
         T, tcls = bases.rand_transform(rng, ntot, "none" if i % 3 else None)
-        cases.append({"shells": shells, "transform": T, "bracket": [t0, side],
+        xt = [float(np.exp(rng.uniform(np.log(1e-16), np.log(0.5)))) for _ in range(2)]
+        if i % 4 == 1:
+            # a second pair bracketed at a tolerance that is not on the fixed list
+            dc2 = dcut(min(shells[0]["e"]), min(shells[-1]["e"]), xt[0])
+            u = rng.normal(size=3)
+            u /= np.linalg.norm(u)
+            shells[-1]["c"] = [float(v) for v in c0 + u * dc2 * [1 + 1e-6, 1 - 1e-6][(i // 4) % 2]]
+        cases.append({"shells": shells, "transform": T, "bracket": [t0, side], "extra_tols": xt,
                       "classes": ["nsh:%d" % nsh, tcls, "types:" + ("mixed" if len(set(tp)) > 1 else tp[0]), "bracket:%s" % ("inside" if side < 1 else "outside")], "cost": nsh * nsh})
     cases += bases.argrep_variants("C20", seed, tier, cases, 6, ok=lambda c: "shells" in c and c.get("kind") in (None, "whole", "kernel", "perm", "real"))  # constructor arguments in other in-memory representations
     return cases
@@ -99,7 +106,7 @@ def run_case(case):
         if s["l"] == 0:
             w = np.abs(np.asarray(r.w[:, 0, :], dtype=float) / np.asarray(r.primnorms()[0, :], dtype=float)[None, :])  # (M,K)
             csum[i] = w.sum(axis=1)
-    tols = sorted(set(TOLS + [case["bracket"][0]]), reverse=True)
+    tols = sorted(set(TOLS + [case["bracket"][0]] + list(case.get("extra_tols", []))), reverse=True)
     prev_dropped = None
     any_drop, any_keep = False, False
     for t in tols:
